@@ -374,6 +374,14 @@ func (g *G) hdrValue(name string) string {
 
 func (g *G) hdrLine() (string, string) {
 	var name string
+	if g.p(6) { // a numeric header with a boundary value
+		name = g.pick("Content-Length", "l", "CSeq", "Expires", "CONTENT-LENGTH")
+		v := g.digits()
+		if name == "CSeq" {
+			v += g.pick(" ", "\t") + g.pick(methods...)
+		}
+		return name, name + ":" + g.pick("", " ") + v + g.pick("", " ") + g.eol()
+	}
 	if g.p(75) {
 		name = g.hdrName(knownHdrs[g.n(len(knownHdrs))])
 	} else {
@@ -408,7 +416,11 @@ func (g *G) message() string {
 					decl = 0
 				}
 			}
-			sb.WriteString(g.hdrName(knownHdrs[6]) + ":" + g.ows() + fmt.Sprint(decl) + g.eol())
+			ds := fmt.Sprint(decl)
+			if g.p(6) {
+				ds = g.digits()
+			}
+			sb.WriteString(g.hdrName(knownHdrs[6]) + ":" + g.ows() + ds + g.eol())
 			hasCL = true
 			continue
 		}
@@ -505,6 +517,39 @@ func enumStrings(alphabet []string, maxLen int, f func(string)) {
 func (g *G) cuts(offs, n int) []int {
 	if n-offs <= 1 {
 		return nil
+	}
+	return g.cutsIn(offs, n, nil)
+}
+
+// cutsFor knows the text: a third of the schedules cut right after (or before) a byte that is
+// special to the grammar (backslash, CR, LF, quote, separators, digits), with the whole text
+// before it arriving in one piece
+func (g *G) cutsFor(offs int, buf string) []int {
+	if len(buf)-offs <= 1 {
+		return nil
+	}
+	return g.cutsIn(offs, len(buf), []byte(buf))
+}
+
+func (g *G) cutsIn(offs, n int, buf []byte) []int {
+	if buf != nil && g.p(35) {
+		var cand []int
+		for i := offs; i < n-1; i++ {
+			switch buf[i] {
+			case '\\', '\r', '\n', '"', ';', '=', ',', '<', '>', ':', ' ', '\t', '@', '?', '&', '*':
+				cand = append(cand, i+1)
+				if i > offs {
+					cand = append(cand, i)
+				}
+			}
+		}
+		if len(cand) > 0 {
+			c := cand[g.n(len(cand))]
+			if g.p(30) && c+1 < n {
+				return []int{c, c + 1}
+			}
+			return []int{c}
+		}
 	}
 	switch g.n(4) {
 	case 0: // every byte
